@@ -301,3 +301,51 @@ theorem aeAccept_term (n : Node) (now : Nat) (q : AEReq) :
       split <;> split <;> simp [Node.nextConfiguration_term, Node.nextConfiguration_votedFor]
 
 end Raft
+
+namespace Raft
+
+theorem aeEnter_id (n : Node) (now : Nat) (q : AEReq) : (aeEnter n now q).1.id = n.id := by
+  unfold aeEnter; simp only; split <;> split <;> simp
+theorem aeEnter_rvRounds (n : Node) (now : Nat) (q : AEReq) : (aeEnter n now q).1.rvRounds = n.rvRounds := by
+  unfold aeEnter; simp only; split <;> split <;> rfl
+theorem aeEnter_nextRound (n : Node) (now : Nat) (q : AEReq) : (aeEnter n now q).1.nextRound = n.nextRound := by
+  unfold aeEnter; simp only; split <;> split <;> rfl
+theorem aeEnter_role_leader (n : Node) (now : Nat) (q : AEReq) :
+    (aeEnter n now q).1.role = .leader → n.role = .leader ∧ ¬ (q.term > n.term) := by
+  unfold aeEnter; simp only
+  split
+  · split <;> (intro h; simp at h)
+  · rename_i hgt
+    split
+    · intro h; simp at h
+    · intro h; exact ⟨h, hgt⟩
+
+/-- The accepting part leaves identity, vote rounds and leadership alone, and keeps the
+    configuration when the committed configuration is the configuration (static membership). -/
+theorem aeAccept_frame (m : Node) (now : Nat) (q : AEReq) :
+    (aeAccept m now q).1.id = m.id ∧ (aeAccept m now q).1.rvRounds = m.rvRounds ∧
+    (aeAccept m now q).1.nextRound = m.nextRound ∧ ((aeAccept m now q).1.role = .leader → m.role = .leader) ∧
+    (m.committed = some m.config → (aeAccept m now q).1.config = m.config) := by
+  unfold aeAccept
+  cases hmm : mergeScan m.log q.entries with
+  | fatal => exact ⟨rfl, rfl, rfl, fun h => h, fun _ => rfl⟩
+  | ok l1 t app =>
+    simp only
+    cases t with
+    | none => simp only; split <;> exact ⟨rfl, rfl, rfl, fun h => h, fun _ => rfl⟩
+    | some ti =>
+      simp only
+      have a1 := Node.nextConfiguration_id { m with log := l1 } now m.committed
+      have a2 := Node.nextConfiguration_rvRounds { m with log := l1 } now m.committed
+      have a3 := Node.nextConfiguration_nextRound { m with log := l1 } now m.committed
+      have a4 := Node.nextConfiguration_role_leader { m with log := l1 } now m.committed
+      have a5 : m.committed = some m.config →
+          (Node.nextConfiguration { m with log := l1 } now m.committed).1.config = m.config := by
+        intro hc; rw [hc]; exact Node.nextConfiguration_config _ now m.config
+      split <;> split
+      · exact ⟨a1, a2, a3, a4, a5⟩
+      · exact ⟨a1, a2, a3, a4, a5⟩
+      · exact ⟨rfl, rfl, rfl, fun h => h, fun _ => rfl⟩
+      · exact ⟨rfl, rfl, rfl, fun h => h, fun _ => rfl⟩
+
+end Raft
